@@ -98,6 +98,11 @@ pub fn run(em: &mut Emitter, rng: &mut Rng, thorough: bool) {
     for a in 0xe0..=0xefu8 { for &b in &cont { for &c in &cont { decode_case(em, 0, 2, &prim_tlv(0x0c, &[a, b, c]), Some(&[a, b, c])); } } }
     for a in 0xf0..=0xf8u8 { for &b in &cont { for &c in &cont { for &d in &cont { decode_case(em, 0, 2, &prim_tlv(0x0c, &[a, b, c, d]), Some(&[a, b, c, d])); } } } }
     if thorough { for a in 0xe0..=0xefu8 { for b in 0..=255u8 { for c in [0x7fu8, 0x80, 0xbf, 0xc0] { decode_case(em, 0, 2, &prim_tlv(0x0c, &[a, b, c]), Some(&[a, b, c])); } } } }
+    // primitive strings around the CER limit of 1000 content octets
+    for cs in 0..4u8 { for n in [999usize, 1000, 1001] { for mode in 0..3u8 {
+        let b: Vec<u8> = (0..n).map(|i| match cs { 1 => b'0' + (i % 10) as u8, _ => b'a' + (i % 26) as u8 }).collect();
+        decode_case(em, cs, mode, &prim_tlv(TAGS[cs as usize], &b), if mode == 1 && n > 1000 { None } else { Some(&b) });
+    }}}
     // segmented (constructed) strings: a multi-octet character straddling a segment boundary
     for _ in 0..(if thorough { 160_000 } else { 5_000 }) {
         let cs = rng.below(4) as u8;
